@@ -170,7 +170,12 @@ func modelQuads(s string) ([]rdf.Quad, error) {
 // ---------------------------------------------------------------- datasets of the harness
 
 // labelOf is the blank node labeller used everywhere: bnode i is "_:" + labelOf(i).
-func labelOf(i int) string { return "n" + strconv.Itoa(i) }
+func labelOf(i int) string {
+	if i == 0 {
+		return "b" // a one-character label: boundary of the decoder's `len(s) > 2 && s[:2] == "_:"` tests
+	}
+	return "n" + strconv.Itoa(i)
+}
 
 func gquadsWire(qs []vh.GQuad) string {
 	if len(qs) == 0 {
